@@ -73,7 +73,8 @@ def time_templates():
                                 if ss is not None:
                                     t += sep + ss + fr
                                 out.append(t + z)
-    out += ["", " ", "12", "12:", ":12", "12:00:", "noon", "12:00 ", " 12:00", "12.00", "12:00:00.", "12h00", "١٢:٠٠"]
+    out += ["", " ", "12", "12:", ":12", "12:00:", "noon", "12:00 ", " 12:00", "12.00", "12:00:00.", "12h00", "١٢:٠٠",
+            "12Z:30", "12:30Z:00", "12Z:30:00", "Z12:00", "12:00ZZ", "12:00Z+01:00", "12:00:00Z:00", "1Z2:00", "12:00z:30", "ZZ", "Z"]
     return uniq(out)
 
 
